@@ -2,7 +2,7 @@
   C13 — variant haplotypes: alternative sequence and lift-over match the edit model.
 
   Property theorems only (helper lemmas: Proofs/VarKernel.lean, VarAlt.lean, VarLift.lean, VarOpt.lean, VarFull.lean,
-  VarInc.lean, VarColl.lean, VarCollFull.lean, VarVcf.lean).
+  VarInc.lean, VarColl.lean, VarCollFull.lean, VarVcf.lean, VarHap.lean).
     Spec.Variants   position-wise semantics of edits: `piece`, `image ref es lo hi` (edited image of a reference
                     range), `altOf` (literal substitution of every edit), `newPos`/`imageBlock` (where a position /
                     a block sits on the haplotype), verdict functions `okAltSeq`, `okLift`, `okIncorporate`, `okVcf`
@@ -18,6 +18,8 @@ import BioCantor.Proofs.VarInc
 import BioCantor.Proofs.VarColl
 import BioCantor.Proofs.VarCollFull
 import BioCantor.Proofs.VarVcf
+import BioCantor.Proofs.VarHap
+set_option autoImplicit false   -- an unresolved name in a statement must be an error, never a bound variable
 namespace BioCantor.Props.C13
 open BioCantor BioCantor.GenP BioCantor.Spec.Variants BioCantor.Proofs.Var
 open BioCantor.Model.Variants (Var altSeq1 altSeqN kernel liftBlocks liftSingle lift1 liftN liftSeqSingleStop slice Par
@@ -324,6 +326,45 @@ theorem descending_order_fixes_witness :
     liftN .descending .whole refW [v1, v2] (.single (15, 24) .plus) = .ok (.single (14, 23) .plus) := by
   rfl
 
+/-! ### alternative_haplotype_mapping of an AnnotationCollection
+
+   `hapMapping` mirrors the loop of `_associate_intervals_with_variant_intervals` (plain branch: haplotypes outermost,
+   `itertools.chain(genes, feature_collections)` inside, a dict of lists filled by `append`); `bucket d i` = the list
+   stored for haplotype `i` (empty when the key is absent); `collect … vs ms` = walk the members in order, keep those
+   whose span overlaps the span of `vs`, incorporate each with `vs`. -/
+
+/-- per-key independence, any number of haplotypes and members: the bucket of haplotype `i` is exactly
+    `collect` of haplotype `i` ALONE — no member incorporated with another haplotype, no member of another bucket —
+    and there are no buckets beyond the haplotypes. -/
+theorem haplotype_buckets (ver : Ver) (par : Par) (ref : Seq) (haps : List (List Var))
+    (members : List Model.Variants.Member) (d : Model.Variants.HapMap)
+    (h : Model.Variants.hapMapping ver par ref haps members = .ok d) :
+    (∀ i (hi : i < haps.length),
+        collect ver par ref haps[i] (Model.Variants.chainOrder members) = .ok (Model.Variants.bucket d i))
+    ∧ ∀ i, haps.length ≤ i → Model.Variants.bucket d i = [] :=
+  hapMapping_buckets ver par ref haps members d h
+
+/-- membership of a bucket: exactly the members whose span shares a position with the haplotype's span
+    (`Spec.Variants.spansMeet`, the documented overlap rule), in chain order, and every entry is
+    `member.incorporate_variants(that haplotype)` -/
+theorem haplotype_members (ver : Ver) (par : Par) (ref : Seq) (vs : List Var)
+    (ms : List (Nat × Model.Variants.Member)) (e : List (Nat × List Model.Variants.Shown))
+    (h : collect ver par ref vs ms = .ok e) :
+    e.map (·.1) = (ms.filter fun p => spansMeet (Model.Variants.memberSpan p.2) (Model.Variants.hapSpan vs)).map (·.1)
+    ∧ ∀ p ∈ e, ∃ m, (p.1, m) ∈ ms ∧ Model.Variants.incorporateMember ver par ref vs m = .ok p.2 := by
+  have := collect_members ver par ref vs ms e h
+  simpa only [spansOverlap_eq] using this
+
+/-- the `cgranges` branch (members outermost, interval-tree query per member) fills every bucket exactly like the
+    plain branch.  cgranges is not installed here, so this branch is covered by this theorem only, not by the
+    correspondence run. -/
+theorem haplotype_tree_branch (ver : Ver) (par : Par) (ref : Seq) (haps : List (List Var))
+    (members : List Model.Variants.Member) (dP dT : Model.Variants.HapMap)
+    (hP : Model.Variants.hapMapping ver par ref haps members = .ok dP)
+    (hT : Model.Variants.hapMappingTree ver par ref haps (Model.Variants.chainOrder members) [] = .ok dT) :
+    ∀ i, Model.Variants.bucket dT i = Model.Variants.bucket dP i :=
+  tree_buckets_eq_plain ver par ref haps members dP dT hP hT
+
 /-! ### T4 — VCF records: one variant per alternative allele (grouping itself: correspondence + `okVcf`) -/
 
 theorem vcf_one_variant_per_alt (r : Model.Variants.VcfRec) :
@@ -355,6 +396,14 @@ theorem vcf_total (recs : List Model.Variants.VcfRec) (hps : ∀ r ∈ recs, ∀
     ∃ out, convertVcf .current recs = some out
       ∧ ∀ p ∈ out, ∃ g ∈ groupRuns recs, p.1 = g.1 ∧ vcfColls .current g.1 g.2 = some p.2 :=
   convertVcf_total recs hps
+
+/-- phase set 0 is a phase set like any other (the hypothesis of `vcf_partition` is `0 ≤ n`): two records phased with
+    PS = 0 and one with PS = 3 give one collection per phase set -/
+theorem vcf_ps_zero_witness :
+    (vcfColls .current ['c'] [⟨['c'], 5, 6, .val 0, [(['A'], ['S'])]⟩, ⟨['c'], 7, 8, .val 3, [(['T'], ['S'])]⟩,
+        ⟨['c'], 9, 12, .val 0, [(['A'], ['D'])]⟩]).map (fun cs => cs.map (fun c => c.vars.map (fun d => (d.start, d.phase))))
+      = some [[(5, .val 0), (9, .val 0)], [(7, .val 3)]] := by
+  decide
 
 /-- since c293a73 a missing PS value is read like an absent PS field: the two records of the former finding F-C13c
     become two unphased singleton collections (before: the model had no answer — Python raised TypeError) -/
